@@ -24,6 +24,15 @@ var (
 	xs   = []int{5, 6, 7}
 	bv   = true
 )
+
+const (
+	cpi        = 3.14159265358979
+	cbig       = 1234567.5
+	cint       = 1 << 40
+	ctyped int = 77
+	cstr       = "konst"
+	cflt32     = float32(0.1)
+)
 `
 
 type interpPart struct {
@@ -94,6 +103,16 @@ func (g *G) interpLiteral() (x, gg string, nexpr, ndollar int, kinds []string, h
 				{"xs[1]", "strconv.Itoa(xs[1])", "index"},
 				{"len(xs)", "strconv.Itoa(len(xs))", "builtin-call"},
 				{"sv+sv", "sv + sv", "string-concat"},
+				{"cpi", "strconv.FormatFloat(cpi, 'g', -1, 64)", "const-float-long"},
+				{"cbig", "strconv.FormatFloat(cbig, 'g', -1, 64)", "const-float-long"},
+				{"1234567.5", "strconv.FormatFloat(1234567.5, 'g', -1, 64)", "float-literal-long"},
+				{"cpi*2", "strconv.FormatFloat(cpi*2, 'g', -1, 64)", "const-float-expr"},
+				{"0.1+0.2", "strconv.FormatFloat(0.1+0.2, 'g', -1, 64)", "const-float-expr"},
+				{"fv*cpi", "strconv.FormatFloat(fv*cpi, 'g', -1, 64)", "float-arith"},
+				{"cint", "strconv.FormatInt(cint, 10)", "const-int"},
+				{"ctyped", "strconv.Itoa(ctyped)", "const-int"},
+				{"cstr", "cstr", "const-string"},
+				{"7", "strconv.Itoa(7)", "int-literal"},
 				{"bv", "", "bool"},
 			}
 			p := parts[g.Intn(len(parts), "expr")]
